@@ -50,6 +50,10 @@ class _ObjClasses(dict):
             self["SpecifierSet"] = (SP.SpecifierSet, ["_specs", "_prereleases"])
             from packaging import requirements as RQ
             self["Requirement"] = (RQ.Requirement, ["name", "url", "extras", "specifier", "marker"])
+            # --- x6
+            from packaging import _elffile as EF
+            self["ELFFile"] = (EF.ELFFile, ["_f", "capacity", "encoding", "_p_fmt", "_p_idx", "machine", "_e_phoff", "flags",
+                                            "_e_phentsize", "_e_phnum"])
 
     def __contains__(self, k):
         self._load()
@@ -76,6 +80,10 @@ def enc_val(v) -> str:
         return "i" + str(v)
     if isinstance(v, str):
         return "s" + core.enc(v)
+    if isinstance(v, bytes):                                                   # x6
+        return "Obytes{v=L[" + ",".join("i" + str(b) for b in v) + "]}"
+    if type(v).__name__ == "BytesIO":                                          # x6: contents and position
+        return "OBytesIO{data=" + enc_val(v.getvalue()) + ",pos=i" + str(v.tell()) + "}"
     if isinstance(v, WireObj):                                                 # x6
         return "O" + v.cls + "{" + ",".join(f"{k}={enc_val(x)}" for k, x in v.fields.items()) + "}"
     if isinstance(v, Env):
@@ -167,7 +175,14 @@ class _P:
             self.i += 1
             if name in ("set", "frozenset"):
                 return (set if name == "set" else frozenset)(fields["items"])
-            if name in ("module", "callable", "ELFFile"):             # x6: known by class name and fields only
+            if name == "bytes":                                          # x6
+                return bytes(fields["v"])
+            if name == "BytesIO":
+                import io
+                o = io.BytesIO(fields["data"])
+                o.seek(fields["pos"])
+                return o
+            if name in ("module", "callable"):                          # x6: known by class name and fields only
                 return WireObj(name, fields)
             cls, _ = _OBJ_CLASSES[name]
             if issubclass(cls, tuple):
@@ -1776,6 +1791,50 @@ def _g_env_lcfg(rng):
     return [_x6_env(_x6_lcfg(rng))]
 
 
+def _x6_elf_bytes(rng):
+    from gen import elfgen as E
+    r = rng.random()
+    if r < 0.45:
+        d = E.exe_for(rng.choice(["x86_64", "i686", "armhf", "aarch64", "s390x", "i386-be", "arm-be"]))
+        if rng.random() < 0.8:
+            d = E.with_interp(d, (rng.choice(E.INTERPS) + rng.choice(["", "\0", "\0\0"])).encode())
+    else:
+        d = E.gen_desc(rng, huge=rng.random() < 0.3)
+    b = E.build(d, limit=2048)
+    k = rng.random()
+    if k < 0.12:
+        b = b[:rng.randrange(0, min(len(b), 70) + 1)]                     # truncated headers
+    elif k < 0.2 and b:
+        i = rng.randrange(min(len(b), 8))
+        b = b[:i] + bytes([rng.choice([0, 1, 2, 3, 127, 255])]) + b[i + 1:]   # damaged identification
+    return b
+
+
+def _g_elf_init(rng):
+    import io
+    from packaging import _elffile as EF
+    return [object.__new__(EF.ELFFile), io.BytesIO(_x6_elf_bytes(rng))]
+
+
+def _g_elf_interpreter(rng):
+    import io
+    from packaging import _elffile as EF
+    for _ in range(50):
+        b = _x6_elf_bytes(rng)
+        try:
+            o = EF.ELFFile(io.BytesIO(b))
+        except ValueError:
+            continue
+        try:
+            r = o.interpreter
+        except ValueError:
+            r = None
+        if r is None or r.isascii():                 # the run-time decodes ASCII paths only
+            return [EF.ELFFile(io.BytesIO(b))]
+    from gen import elfgen as E
+    return [EF.ELFFile(io.BytesIO(E.build(E.exe_for("x86_64"))))]
+
+
 _ML, _MU = "packaging._manylinux", "packaging._musllinux"
 FUNCS.update({
     "_parse_musl_version": (_MU, "_parse_musl_version", _g_parse_musl),
@@ -1788,6 +1847,8 @@ FUNCS.update({
     "mac_platforms": ("packaging.tags", "mac_platforms", _g_mac_platforms),
     "ios_platforms": ("packaging.tags", "ios_platforms", _g_ios_platforms),
     "tags.platform_tags": ("packaging.tags", "platform_tags", _g_platform_tags),
+    "ELFFile.__init__": ("packaging._elffile", "ELFFile.__init__", _g_elf_init),
+    "ELFFile.interpreter": ("packaging._elffile", "ELFFile.interpreter", _g_elf_interpreter),
 })
 X6_ENV_FUNCS = {"_musllinux.platform_tags", "_is_compatible", "_manylinux.platform_tags", "_have_compatible_abi", "_get_glibc_version",
                 "_linux_platforms", "mac_platforms", "ios_platforms", "tags.platform_tags"}
